@@ -31,6 +31,70 @@ def scan_contract(interp, fi, args, kwargs):
     return B.PyList(None, seq=r)
 
 
+def block_rules(ck, T, axioms):
+    """the four block rules: check accepts the class pair, apply succeeds for containers of the same layout and preserves
+    the product (LA4) and the end structures"""
+    P = ck.P
+    BL = 'furax._base.blocks'
+    # ------------------------------------------------------------------ the four block rules
+    KIND = {'BlockRowOperator': 'Row', 'BlockDiagonalOperator': 'Diag', 'BlockColumnOperator': 'Col'}
+    block_rules = [c for c in P.subclasses(P.cls('AbstractBlockDiagonalRule'), concrete_only=True)
+                   if not c.name.startswith('Abstract')]
+
+    def block_rule(S, same_layout):
+        S.oracle = ORACLE
+        rc = block_rules[S.choose(len(block_rules))]
+        rule = Obj(rc)
+        lcls = S.I.getattr(rule, 'left_operator_class').info
+        rcls = S.I.getattr(rule, 'right_operator_class').info
+        kl, kr = KIND[lcls.name], KIND[rcls.name]
+        lb = S.seq('left_blocks', kind='list', sort=A.Op)
+        rb = S.seq('right_blocks', kind='list', sort=A.Op)
+        n, m = to_z3(lb.length), to_z3(rb.length)
+        la, ra = lb.arr, rb.arr
+        k = fresh_int('k')
+        S.assume(z3.And(n >= 1, m >= 1))
+        # constructors' invariants (C10)
+        if kl == 'Row':
+            S.assume(z3.ForAll([k], z3.Implies(z3.And(k >= 0, k < n), A.outs(la[k]) == A.outs(la[0]))))
+        if kr == 'Col':
+            S.assume(z3.ForAll([k], z3.Implies(z3.And(k >= 0, k < m), A.ins(ra[k]) == A.ins(ra[0]))))
+        lblocks, rblocks = B.PyList(None, seq=lb), B.PyList(None, seq=rb)
+        lblocks.treedef, rblocks.treedef = z3.Int('left_treedef'), z3.Int('right_treedef')
+        left, right = S.new(lcls.name, blocks=lblocks), S.new(rcls.name, blocks=rblocks)
+        # the pair stands in a well-typed chain: in-structure tree of left == out-structure tree of right
+        S.assume(A.BLKS[kl + 'in'](la, n) == A.BLKS[kr + 'out'](ra, m))
+        if same_layout:
+            S.assume(z3.And(n == m, lblocks.treedef == rblocks.treedef))
+            S.assume(A.lem_tree_struct_injective(A.BLKS[kl + 'in'], la, A.BLKS[kr + 'out'], ra, n, A.ins, A.outs))
+            if kl == 'Row' and kr == 'Col':
+                pass
+        chk = S.call(S.I.getattr(rule, 'check'), [left, right])
+        S.oblige('post', chk.normal, tag=f'{rc.name}:check-accepts-its-class-pair')
+        out = S.call(S.I.getattr(rule, 'apply'), [left, right])
+        if not out.normal:
+            S.oblige('exc', out.raised('NoReduction'), tag=f'{rc.name}:only-NoReduction-may-escape:{out.value.name}',
+                     note=str(out.where))
+            return
+        ok = isinstance(out.value, B.PyList) and out.value.seq is None and len(out.value.items) == 1
+        S.oblige('post', bool(ok), tag=f'{rc.name}:returns-one-operator')
+        if not ok:
+            return
+        res = out.value.items[0]
+        c, w, i_, o_ = A.den_of(S.I, res)
+        cl, wl, il, ol = A.den_of(S.I, left)
+        cr, wr, ir, orr = A.den_of(S.I, right)
+        S.oblige('post', z3.And(w == z3.Concat(wl, wr), c == cl * cr), tag=f'{rc.name}:product-preserved (LA4)', exact=False)
+        S.oblige('post', z3.And(i_ == ir, o_ == ol), tag=f'{rc.name}:end-structures-kept', exact=False)
+
+    def block_rule_hook(interp, fi, args, kwargs):
+        return None
+    ck.explore(f'{BL}.AbstractBlockDiagonalRule.apply', lambda S: block_rule(S, True), T, label='same-layout',
+               axioms=axioms + A.block_struct_axioms() + A.matprod_axioms(),
+               contracts={**A.block_structure_contracts(), **A.container_callee_contracts(P)})
+
+
+
 def build(ck):
     T = A.AlgTheory(ck.P)
     P = ck.P
@@ -161,61 +225,7 @@ def build(ck):
             S.oblige('post', False, tag=f'{ci.name}:unexpected-result')
     ck.explore(f'{RULES}.InverseBinaryRule.apply', inverse_rule, T, axioms=axioms)
 
-    # ------------------------------------------------------------------ the four block rules
-    KIND = {'BlockRowOperator': 'Row', 'BlockDiagonalOperator': 'Diag', 'BlockColumnOperator': 'Col'}
-    block_rules = [c for c in P.subclasses(P.cls('AbstractBlockDiagonalRule'), concrete_only=True)
-                   if not c.name.startswith('Abstract')]
-
-    def block_rule(S, same_layout):
-        S.oracle = ORACLE
-        rc = block_rules[S.choose(len(block_rules))]
-        rule = Obj(rc)
-        lcls = S.I.getattr(rule, 'left_operator_class').info
-        rcls = S.I.getattr(rule, 'right_operator_class').info
-        kl, kr = KIND[lcls.name], KIND[rcls.name]
-        lb = S.seq('left_blocks', kind='list', sort=A.Op)
-        rb = S.seq('right_blocks', kind='list', sort=A.Op)
-        n, m = to_z3(lb.length), to_z3(rb.length)
-        la, ra = lb.arr, rb.arr
-        k = fresh_int('k')
-        S.assume(z3.And(n >= 1, m >= 1))
-        # constructors' invariants (C10)
-        if kl == 'Row':
-            S.assume(z3.ForAll([k], z3.Implies(z3.And(k >= 0, k < n), A.outs(la[k]) == A.outs(la[0]))))
-        if kr == 'Col':
-            S.assume(z3.ForAll([k], z3.Implies(z3.And(k >= 0, k < m), A.ins(ra[k]) == A.ins(ra[0]))))
-        lblocks, rblocks = B.PyList(None, seq=lb), B.PyList(None, seq=rb)
-        lblocks.treedef, rblocks.treedef = z3.Int('left_treedef'), z3.Int('right_treedef')
-        left, right = S.new(lcls.name, blocks=lblocks), S.new(rcls.name, blocks=rblocks)
-        # the pair stands in a well-typed chain: in-structure tree of left == out-structure tree of right
-        S.assume(A.BLKS[kl + 'in'](la, n) == A.BLKS[kr + 'out'](ra, m))
-        if same_layout:
-            S.assume(z3.And(n == m, lblocks.treedef == rblocks.treedef))
-            S.assume(A.lem_tree_struct_injective(A.BLKS[kl + 'in'], la, A.BLKS[kr + 'out'], ra, n, A.ins, A.outs))
-        chk = S.call(S.I.getattr(rule, 'check'), [left, right])
-        S.oblige('post', chk.normal, tag=f'{rc.name}:check-accepts-its-class-pair')
-        out = S.call(S.I.getattr(rule, 'apply'), [left, right])
-        if not out.normal:
-            S.oblige('exc', out.raised('NoReduction'), tag=f'{rc.name}:only-NoReduction-may-escape:{out.value.name}',
-                     note=str(out.where))
-            return
-        ok = isinstance(out.value, B.PyList) and out.value.seq is None and len(out.value.items) == 1
-        S.oblige('post', bool(ok), tag=f'{rc.name}:returns-one-operator')
-        if not ok:
-            return
-        res = out.value.items[0]
-        c, w, i_, o_ = A.den_of(S.I, res)
-        cl, wl, il, ol = A.den_of(S.I, left)
-        cr, wr, ir, orr = A.den_of(S.I, right)
-        S.oblige('post', z3.And(w == z3.Concat(wl, wr), c == cl * cr), tag=f'{rc.name}:product-preserved (LA4)', exact=False)
-        S.oblige('post', z3.And(i_ == ir, o_ == ol), tag=f'{rc.name}:end-structures-kept', exact=False)
-
-    def block_rule_hook(interp, fi, args, kwargs):
-        return None
-    if False:   # TODO(block rules): obligations not yet dischargeable; not registered, not claimed (see level_note)
-      ck.explore(f'{BL}.AbstractBlockDiagonalRule.apply', lambda S: block_rule(S, True), T, label='same-layout',
-               axioms=axioms + A.block_struct_axioms(),
-               contracts={**A.block_structure_contracts(), **A.container_callee_contracts(P)})
+    block_rules(ck, T, axioms)
 
     # ------------------------------------------------------------------ soundness of the remaining concrete rules
     # (element-level identities behind the rule contract; scenarios shared with the packs that own those classes)
